@@ -15,6 +15,12 @@ SC = {"recv": 0x1, "hash": 0x10, "hit": 0x100, "miss": 0x1000, "pass": 0x10000, 
 FASTLY = {"vcl_" + k: v for k, v in SC.items()}
 SUFFIXES = ["recv", "hash", "hit", "miss", "pass", "fetch", "error", "deliver", "log"]   # no _pipe suffix rule
 ANNOT = ["recv", "hash", "hit", "miss", "pass", "fetch", "error", "deliver", "log"]
+# names of builtin functions / function namespaces: a subroutine of that name is rejected as a duplicate
+# definition and never registered in ctx.Subroutines (observed on the real linter, see notes/C11.md)
+REJECTED = ["math", "h2", "h3", "std", "digest", "time", "regsub", "uuid", "header", "ratelimit", "fastly",
+            "accept", "bin", "crypto", "json"]
+IGNORES = ["// falco-ignore-next-line", "# falco-ignore-next-line", "# falco-ignore-next-line unused/declaration",
+           "/* falco-ignore-next-line */", "// falco-ignore-start", "# plain comment"]
 
 
 def explicit_scope(name, annots):
@@ -31,8 +37,9 @@ def explicit_scope(name, annots):
 
 
 class Sub:
-    def __init__(self, name, rtype, annots, items):
+    def __init__(self, name, rtype, annots, items, pre=()):
         self.name, self.rtype, self.annots, self.items = name, rtype, annots, items
+        self.pre = list(pre)          # comment lines in front of the declaration (ignore directives ...)
 
     def callees(self):
         out = []
@@ -41,9 +48,9 @@ class Sub:
         return out
 
     def text(self, macro=True):
-        head = ""
+        head = "".join(c + "\n" for c in self.pre)
         if self.annots:
-            head = "# @scope: %s\n" % ", ".join(self.annots)
+            head += "# @scope: %s\n" % ", ".join(self.annots)
         sig = "sub %s%s {\n" % (self.name, (" " + self.rtype) if self.rtype else "")
         body = ""
         if self.name in FASTLY and macro:
@@ -83,9 +90,12 @@ class LintGen:
             elif k < 0.8:
                 nm = "fn%d" % i
                 kind = "func"
-            else:
+            elif k < 0.94:
                 nm = "hp%d" % i
                 kind = "plain"
+            else:
+                nm = r.choice(REJECTED)
+                kind = "rejected"
             if kind != "fastly" and names and r.random() < 0.06:
                 j = r.randrange(len(names))              # a duplicate declaration of an earlier subroutine
                 if kinds[j] != "fastly":
@@ -191,7 +201,10 @@ class LintGen:
             later = [x for x in names[si + 1:] if x != nm]
             lfuncs = [f for f in funcs if f in later] if r.random() < 0.75 else funcs
             items = [self.item(names, lfuncs, 1, later) for _ in range(r.choice([0, 1, 1, 2, 2, 3, 4]))]
-            subs.append(Sub(nm, rtype, annots, items))
+            pre = [r.choice(IGNORES)] if r.random() < (0.5 if kind == "rejected" else 0.12) else []
+            if pre and pre[0].endswith("-start"):
+                items = items + [("// falco-ignore-end", [])]
+            subs.append(Sub(nm, rtype, annots, items, pre))
             self._c("sub:" + kind)
         others = []
         for _ in range(r.choice([0, 0, 1, 2, 3])):
@@ -207,6 +220,106 @@ class LintGen:
                 others.append('backend be%d { .host = "example.com"; .port = "80"; }\n' % i)
                 self._c("decl:backend")
         return subs, others
+
+    # ---------------------------------------------------------------- call-graph shapes
+    LEAF_SENSITIVE = ["restart;", "esi;", "error 601;", "set beresp.ttl = 10s;", 'set resp.http.L = "1";',
+                      "set req.http.S = resp.status;", 'set bereq.http.B = "1";', "set obj.status = 500;",
+                      "return(pass);", "return(deliver);", 'synthetic "x";', "set req.http.O = obj.status;",
+                      'set req.http.C = beresp.http.Cache-Control;', "return(lookup);"]
+
+    def shaped_program(self):
+        """layered call graphs: several Fastly entry points reach shared subroutines through paths of
+        different length (depth up to 5, diamonds of unequal depth); the leaves hold statements whose
+        diagnostics depend on the inferred scope; sometimes a user function, an explicitly scoped
+        subroutine in the middle, a back edge (recursion) or a call inside a nested block"""
+        r = self.r
+        n = r.randint(3, 8)
+        inner = ["k%d" % i for i in range(n)]
+        kinds = {}
+        for nm in inner:
+            k = r.random()
+            kinds[nm] = "func" if k < 0.1 else "suffix" if k < 0.17 else "annot" if k < 0.24 else "rejected" if k < 0.28 else "plain"
+        names = {}
+        rej = r.sample(REJECTED, len(REJECTED))
+        for i, nm in enumerate(inner):
+            names[nm] = rej.pop() if kinds[nm] == "rejected" else nm + ("_" + r.choice(SUFFIXES) if kinds[nm] == "suffix" else "")
+        entries = r.sample(list(FASTLY)[:9], r.randint(2, 4))
+        edges = {nm: [] for nm in inner}
+        for i, nm in enumerate(inner[:-1]):
+            later = inner[i + 1:]
+            for _ in range(r.choice([1, 1, 2, 2, 3])):
+                # short and long jumps: the same leaf is reached at different depths
+                j = r.choice([0, 0, len(later) - 1, r.randrange(len(later))])
+                edges[nm].append(later[j])
+        if r.random() < 0.15:
+            edges[inner[-1]].append(r.choice(inner))          # recursion
+        eedges = {}
+        for e in entries:
+            eedges[e] = [r.choice(inner[: max(1, n // 2)])] if r.random() < 0.6 else [r.choice(inner)]
+            if r.random() < 0.4:
+                eedges[e].append(inner[-1] if r.random() < 0.5 else r.choice(inner))
+        self._c("shape:n%d" % n)
+        self._c("shape:entries%d" % len(entries))
+
+        def call_item(callee):
+            cn = names.get(callee, callee)
+            if kinds.get(callee) == "func":
+                k = r.random()
+                if k < 0.5:
+                    return 'set req.http.V = "a" %s();' % cn, [cn]
+                return "if (%s()) { esi; }" % cn, [cn]
+            k = r.random()
+            if k < 0.6:
+                return "call %s;" % cn, [cn]
+            if k < 0.8:
+                return 'if (req.http.A == "1") { call %s; }' % cn, [cn]
+            if k < 0.9:
+                return 'if (req.http.A) { esi; } else { { call %s; } }' % cn, [cn]
+            return 'switch (req.http.K) { case "a": call %s; break; default: break; }' % cn, [cn]
+        subs = []
+        for e in entries:
+            subs.append(Sub(e, None, [], [call_item(c) for c in eedges[e]]))
+        for nm in inner:
+            items = [call_item(c) for c in edges[nm]]
+            if not edges[nm] or r.random() < 0.5:
+                for _ in range(r.choice([1, 1, 2])):
+                    items.insert(r.randint(0, len(items)), (r.choice(self.LEAF_SENSITIVE), []))
+            annots = r.sample(ANNOT, r.choice([1, 2])) if kinds[nm] == "annot" else []
+            rtype = "BOOL" if kinds[nm] == "func" else None
+            if rtype:
+                items = [(t, c) for t, c in items if not t.startswith("return")]
+            pre = [r.choice(IGNORES[:4])] if r.random() < (0.5 if kinds[nm] == "rejected" else 0.08) else []
+            subs.append(Sub(names[nm], rtype, annots, items, pre))
+        r.shuffle(subs)
+        return subs, []
+
+    # ---------------------------------------------------------------- statement-level include graphs
+    def stmt_graph(self, k=None):
+        """module files sm1..smk used at statement level; their bodies nest includes inside blocks
+        (if / else / bare block, depth <= 3); target k+1 is a missing file.
+        returns (main items, {i: items}, broken); items: ("s", tag) | ("i", target) | ("b", [items])"""
+        r = self.r
+        k = k or r.choice([1, 1, 2, 2, 3])
+        tag = [0]
+
+        def items(depth):
+            out = []
+            for _ in range(r.choice([1, 1, 2, 3])):
+                x = r.random()
+                if x < 0.3:
+                    tag[0] += 1
+                    out.append(("s", tag[0]))
+                elif x < 0.65 or depth <= 0:
+                    out.append(("i", r.randint(1, k + 1)))
+                else:
+                    out.append(("b", items(depth - 1)))
+            return out
+        mods = {i: items(3) for i in range(1, k + 1)}
+        main = items(2)
+        if not any(True for _ in _walk_inc(main)):
+            main.append(("i", 1))
+        broken = tuple(i for i in range(1, k + 1) if r.random() < 0.05)
+        return main, mods, broken
 
     def stmt_modules(self):
         """statement-level module files sm1..sm2 (sm3 is missing), possibly including themselves / each other"""
@@ -240,9 +353,62 @@ def model_decls(subs, order=None):
     rows = []
     for i in order:
         s = subs[i]
-        rows.append("(%d %d %d%s)" % (nid(s.name), 1 if s.name in FASTLY else 0, explicit_scope(s.name, s.annots),
+        rows.append("(%d %d %d%s)" % (nid(s.name), 1 if s.name in FASTLY else 2 if s.name in REJECTED else 0,
+                                      explicit_scope(s.name, s.annots),
                                       "".join(" %d" % nid(c) for c in s.callees())))
     return "(" + " ".join(rows) + ")", ids
+
+
+def _walk_inc(items):
+    for it in items:
+        if it[0] == "i":
+            yield it[1]
+        elif it[0] == "b":
+            yield from _walk_inc(it[1])
+
+
+def _stmt_text(items, rng_choice, ind="  "):
+    out = ""
+    for it in items:
+        if it[0] == "s":
+            out += ind + 'set req.http.S%d = "1";\n' % it[1]
+        elif it[0] == "i":
+            out += ind + 'include "sm%d";\n' % it[1]
+        else:
+            form = it[1] and (len(it[1]) + sum(1 for _ in _walk_inc(it[1]))) % 3
+            if form == 0:
+                out += ind + "if (req.http.A) {\n" + _stmt_text(it[1], rng_choice, ind + "  ") + ind + "}\n"
+            elif form == 1:
+                out += ind + "if (req.http.A) { esi; } else {\n" + _stmt_text(it[1], rng_choice, ind + "  ") + ind + "}\n"
+            else:
+                out += ind + "{\n" + _stmt_text(it[1], rng_choice, ind + "  ") + ind + "}\n"
+    return out
+
+
+def _stmt_model(items):
+    out = []
+    for it in items:
+        if it[0] == "s":
+            out.append("(s %d)" % it[1])
+        elif it[0] == "i":
+            out.append("(i %d)" % it[1])
+        else:
+            out.append("(b %s)" % " ".join(_stmt_model(it[1])))
+    return out
+
+
+def stmt_graph_files(main, mods, broken=()):
+    files = {"main.vcl": "sub vcl_recv {\n#FASTLY recv\n" + _stmt_text(main, None) + "}\n"}
+    for i, body in mods.items():
+        files["sm%d.vcl" % i] = "set req.http.S = ;\n" if i in broken else _stmt_text(body, None, "")
+    return files
+
+
+def stmt_graph_model(main, mods, broken=()):
+    tbl = []
+    for i, body in mods.items():
+        tbl.append("(%d B)" % i if i in broken else "(%d L %s)" % (i, " ".join(_stmt_model(body))))
+    return "inc (%s) (%s)" % (" ".join(tbl), " ".join(_stmt_model(main)))
 
 
 # ---------------------------------------------------------------- include graphs
